@@ -130,6 +130,79 @@ def extra_configs(prop, tier, seed):
             c = dict(c, hook='observer', n_iter=8, n_agents=rng.choice([5, 8]), objective=rng.choice(['sphere', 'rastrigin', 'weighted']), box='wide')
             c['lb'], c['ub'] = runlevel.make_box(rng, 'wide', c['n_vars'])
             extra.append(c)
+    if prop in ('C01', 'C07', 'C02', 'C20', 'C15'):
+        # the same optimizer object runs another task first (other box, more variables, fewer iterations): what it
+        # does in the recorded task must not depend on that
+        rng = _random.Random(seed * 37 + 21)
+        pool = [c for c in runlevel.gen_configs('thorough', seed + 88) if c['kind'] != 'GP']
+        kinds_ = {'C01': ['ABC', 'BA', 'CS', 'FPA', 'HS', 'SA', 'BHA'], 'C07': ['CS', 'ABC', 'HS', 'PSO', 'BHA', 'FA'],
+                  'C02': ['ABC', 'CS', 'PSO', 'HS'], 'C20': ['ABC', 'CS', 'FPA', 'PSO', 'HS'], 'C15': ['IHS', 'AIWPSO', 'SA', 'FA', 'WCA']}[prop]
+        for kind in kinds_:
+            for j_, c in enumerate([c for c in pool if c['kind'] == kind][:3 if tier == 'quick' else 12]):
+                how = ['box', 'wider-shape', 'shorter'][j_ % 3]
+                c = dict(c, hook='observer', adv=0.0, n_iter=max(c['n_iter'], 3))
+                if how == 'wider-shape':
+                    # the earlier task had one more variable; this one has a single variable (a leftover array of the
+                    # earlier shape would still broadcast)
+                    c['n_vars'] = 1
+                    c['lb'], c['ub'] = list(c['lb'][:1]), list(c['ub'][:1])
+                    # (an objective that an extra row makes *better*, so that a stray larger array gets accepted)
+                    c['objective'] = rng.choice(['negative', 'signchange'])
+                    c['n_iter'] = 6
+                    c['n_agents'] = max(c['n_agents'], 5)
+                nv = c['n_vars']
+                if kind == 'WCA':
+                    c['hyper'] = {}
+                    c['n_agents'] = max(c['n_agents'], 3)
+                    c['objective'] = 'positive'
+                prior = dict(n_iter=2, seed=c['seed'] + 1)
+                if how == 'box':
+                    # a box that does not contain (and is not contained in) the recorded task's box
+                    w = [abs(u - l) + 1.0 for l, u in zip(c['lb'], c['ub'])]
+                    prior.update(lb=[u + 2 * w_ for u, w_ in zip(c['ub'], w)], ub=[u + 3 * w_ for u, w_ in zip(c['ub'], w)])
+                elif how == 'wider-shape':
+                    prior.update(n_vars=nv + 1, lb=list(c['lb']) + [c['lb'][-1]], ub=list(c['ub']) + [c['ub'][-1]])
+                else:
+                    prior.update(n_iter=1)
+                c['prior'] = prior
+                extra.append(c)
+    if prop in ('C02', 'C20'):
+        # objectives whose return value is a view of their argument, with optimizers that move agents in place and
+        # with the swarm family: the stored fitness is the value returned, whatever happens to the argument later
+        rng = _random.Random(seed * 41 + 23)
+        pool = [c for c in runlevel.gen_configs('thorough', seed + 99) if c['kind'] in ('HC', 'BHA', 'WCA', 'PSO', 'RPSO', 'SA', 'FA', 'GSA', 'SCA') and c['space'] == 'search']
+        for kind in ('HC', 'BHA', 'PSO', 'RPSO', 'SA', 'FA', 'SCA'):
+            for c in [c for c in pool if c['kind'] == kind][:3 if tier == 'quick' else 12]:
+                box = rng.choice(['wide', 'offset', 'unit'])
+                c = dict(c, hook='observer', adv=0.0, objective='view0', n_iter=rng.choice([3, 6]), box=box, hyper={})
+                c['lb'], c['ub'] = runlevel.make_box(rng, box, c['n_vars'])
+                extra.append(c)
+    if prop == 'C04':
+        # records are values: an objective returning a view of its argument, optimizers that move agents in place
+        rng = _random.Random(seed * 43 + 27)
+        pool = [c for c in runlevel.gen_configs('thorough', seed + 101) if c['kind'] in ('HC', 'BHA', 'WCA', 'PSO', 'SA', 'FA') and c['space'] == 'search']
+        for kind in ('HC', 'BHA', 'PSO', 'SA', 'FA'):
+            for c in [c for c in pool if c['kind'] == kind][:3 if tier == 'quick' else 10]:
+                c = dict(c, hook='observer', adv=0.0, objective='view0', n_iter=rng.choice([3, 6]), box='wide', hyper={},
+                         store_best_only=rng.random() < 0.3)
+                c['lb'], c['ub'] = runlevel.make_box(rng, 'wide', c['n_vars'])
+                extra.append(c)
+    if prop == 'C03':
+        # every optimizer at the smallest populations it accepts (1, 2, 3 agents; WCA from its minimum), on plain
+        # and on plateau / constant objectives: boundary sizes are where index draws and loops degenerate
+        rng = _random.Random(seed * 29 + 13)
+        pool = runlevel.gen_configs('thorough', seed + 66)
+        for kind in runlevel.KINDS:
+            ks = [c for c in pool if c['kind'] == kind]
+            sizes = [2, 3, 4] if kind == 'WCA' else ([2, 3, 5] if kind == 'GP' else [1, 2, 3])
+            for j, n_ in enumerate(sizes if tier == 'quick' else sizes * 4):
+                c = dict(ks[j % len(ks)], hook='observer', n_agents=n_, n_iter=rng.choice([2, 3]), adv=0.0)
+                if kind == 'WCA':
+                    c['hyper'] = {'nsr': rng.randint(1, n_)}
+                    c['objective'] = rng.choice(['positive', 'intval', 'constant'])
+                elif kind != 'GP':
+                    c['hyper'] = {}
+                extra.append(c)
     if prop == 'C15':
         # adaptive kinds with degenerate ranges (min == max), an initial w outside [w_min, w_max], end points;
         # and, for every kind, one hyperparameter re-set through its setter after a dictionary construction
@@ -138,8 +211,8 @@ def extra_configs(prop, tier, seed):
         for kind in ('AIWPSO', 'IHS', 'SA', 'FA', 'WCA'):
             ks = [c for c in pool if c['kind'] == kind][:10 if tier == 'quick' else 40]
             for j, c in enumerate(ks):
-                mode = ['degenerate', 'outside', 'ends', 'degenerate', 'random'][j % 5]
-                c = dict(c, hook='observer', n_iter=rng.choice([1, 2, 3, 6]),
+                mode = ['degenerate', 'outside', 'ends', 'degenerate', 'random'][j % 5] if kind != 'SA' else ['underflow', 'ends', 'random', 'underflow', 'ends'][j % 5]
+                c = dict(c, hook='observer', n_iter=rng.choice([1, 2, 3, 6]) if mode != 'underflow' else rng.choice([3, 6]),
                          hyper=runlevel.hyper_sample(rng, kind, c['n_agents'], mode))
                 if kind == 'AIWPSO':
                     c['objective'] = rng.choice(['sphere', 'plateau', 'constant', 'rastrigin'])
